@@ -12,15 +12,15 @@ TupV(s) == [k |-> "tup", items |-> s]
 Envs == <<
   [x |-> IntV(2),      y |-> IntV(-3),    z |-> IntV(5),      b |-> BoolV(TRUE),
    t |-> TupV(<< IntV(10), IntV(20), FracV(5, 2) >>), o |-> ObjV("o1"),
-   f |-> FnV("f"), g |-> FnV("g")],
+   f |-> FnV("f"), g |-> FnV("g"), o2 |-> ObjV("o2")],
   [x |-> FracV(1, 2),  y |-> IntV(2),     z |-> IntV(-1),     b |-> BoolV(FALSE),
-   t |-> TupV(<< IntV(7), IntV(-1), IntV(3) >>), o |-> ObjV("o2"),
-   f |-> FnV("f"), g |-> FnV("g")],
+   t |-> TupV(<< IntV(7), IntV(-1), IntV(3) >>), o |-> ObjV("o1"),
+   f |-> FnV("f"), g |-> FnV("g"), o2 |-> ObjV("o2")],
   [x |-> IntV(0),      y |-> IntV(1),     z |-> IntV(3),      b |-> BoolV(TRUE),
    t |-> TupV(<< IntV(1), IntV(0), IntV(2) >>), o |-> ObjV("o1"),
-   f |-> FnV("g"), g |-> FnV("f")],
+   f |-> FnV("g"), g |-> FnV("f"), o2 |-> ObjV("o2")],
   [x |-> IntV(1),      y |-> FltV(3, 2),  z |-> IntV(0),      b |-> BoolV(FALSE),
    t |-> TupV(<< IntV(4), FracV(2, 3), IntV(-2) >>), o |-> ObjV("o1"),
-   f |-> FnV("f"), g |-> FnV("g")]
+   f |-> FnV("f"), g |-> FnV("g"), o2 |-> ObjV("o2")]
 >>
 =============================================================================
